@@ -23,14 +23,20 @@ P = {
         "name": "requests", "pkg": "./internal/rules", "test": "TestVerifC08",
         "overlay": {"internal/rules/zz_verif_c08_test.go": "c08/c08_test.go"},
         "eval_module": "Run.Eval_C08", "check_term": "check " + FX,
-        "n_quick": 1000, "n_thorough": 30000, "shard": 150,
+        "n_quick": 800, "n_thorough": 30000, "shard": 150,
         "findings": {1: "C08-F1", 4: "C08-F4"},
     }, {
         "name": "envoy", "pkg": "./internal/rules", "test": "TestVerifC08Envoy",
         "overlay": {"internal/rules/zz_verif_c08_test.go": "c08/c08_test.go"},
         "eval_module": "Run.Eval_C08", "check_term": "check_envoy " + FX,
-        "n_quick": 500, "n_thorough": 15000, "shard": 150,
+        "n_quick": 400, "n_thorough": 15000, "shard": 150,
         "findings": {1: "C08-F1", 4: "C08-F4"},
+    }, {
+        "name": "xfu", "pkg": "./internal/rules", "test": "TestVerifC08Xfu",
+        "overlay": {"internal/rules/zz_verif_c08_test.go": "c08/c08_test.go"},
+        "eval_module": "Run.Eval_C08", "check_term": "check_xfu " + FX,
+        "n_quick": 400, "n_thorough": 15000, "shard": 150,
+        "findings": {1: "C08-F1", 4: "C08-F4", 6: "C08-F6"},
     }, {
         "name": "units", "pkg": "./internal/rules", "test": "TestVerifC08Units",
         "overlay": {"internal/rules/zz_verif_c08_test.go": "c08/c08_test.go"},
